@@ -6128,6 +6128,10 @@ class SSHServerConnection(SSHConnection):
                                  'resolved %s', client_host, resolved_host)
 
         if self._known_client_hosts:
+            # Trust only the keys listed for the host of this request,
+            # not those matched for earlier requests on this connection
+            self._trusted_host_keys = set()
+
             self._match_known_hosts(self._known_client_hosts, resolved_host,
                                     self._peer_addr, None)
 
